@@ -78,13 +78,24 @@ let () =
   let dead = ref false and spec_dead = ref false and disc_dead = ref false in
   let ospec = ref ospec0 and pend_before = ref [] and srv_seen = ref [] in
   let hyp_false = ref false and reuse_seen = ref false and cd_seen = ref false in
-  let conn_seen = ref [] and spur_dead = ref false in
+  let conn_seen = ref [] and spur_dead = ref false and spurk_dead = ref false in
+  let pre_cands = ref [] and acts_before = ref [] in
   let resp_before = ref [] and lost_dead = ref false in
   let printed = Hashtbl.create 64 in
   let report sg text =
     let n = try Hashtbl.find printed sg with Not_found -> 0 in
     Hashtbl.replace printed sg (n + 1);
     if n < 3 then print_string text in
+  (* a spurious close caused by the drop of an ActiveRequest whose connection slot belongs to ANOTHER client
+     than the one that sent its request (the agreeing model says so on the state before the drop) is the known
+     slot-reuse class; everything else (e.g. a stale ActiveRequest of the SAME live client) is not *)
+  let spur_class (o : op) (model_alive : bool) =
+    match o with
+    | Ad k when model_alive && !pre_cands <> [] ->
+      (match (try Some (List.nth !acts_before (int_of_n k)) with _ -> None) with
+       | Some (h, _, _) when List.for_all (fun st -> act_foreign st (n_of_int h)) !pre_cands -> "disconnect_spurious_newclient"
+       | _ -> "disconnect_spurious")
+    | _ -> "disconnect_spurious" in
   let maxc = ref 1 in
   let flush_case () =
     if Buffer.length cur_case > 0 then begin
@@ -99,7 +110,7 @@ let () =
       match toks with
       | "C" :: _variant :: kvs ->
         flush_case (); incr case_no; op_no := 0; dead := false; spec_dead := false; disc_dead := false;
-        ospec := ospec0; pend_before := []; srv_seen := []; hyp_false := false; reuse_seen := false; cd_seen := false; conn_seen := []; spur_dead := false; resp_before := []; lost_dead := false;
+        ospec := ospec0; pend_before := []; srv_seen := []; hyp_false := false; reuse_seen := false; cd_seen := false; conn_seen := []; spur_dead := false; spurk_dead := false; pre_cands := []; acts_before := []; resp_before := []; lost_dead := false;
         let kv k = let p = k ^ "=" in
           let e = List.find (fun s -> String.length s > String.length p && String.sub s 0 (String.length p) = p) kvs in
           int_of_string (String.sub e (String.length p) (String.length e - String.length p)) in
@@ -129,6 +140,7 @@ let () =
          | _ -> ());
         (* ---- the concrete model (the tie) ---- *)
         if not !dead then begin
+          pre_cands := !cands;
           let next = ref [] in
           let first = ref None in
           (* the hypothesis of c11_routing_under_send_ok, evaluated on the (agreeing) model *)
@@ -214,22 +226,25 @@ let () =
               List.iter (fun (h, j, conn) ->
                   (* is_connected of a live request's two ends stays true until one of ITS ends is dropped *)
                   if conn then (if not (List.mem (h, j) !conn_seen) then conn_seen := (h, j) :: !conn_seen)
-                  else if List.mem (h, j) !conn_seen && List.mem h pend && not !spur_dead then begin
-                    spur_dead := true; incr mm_spec;
-                    report "specspur" (Printf.sprintf "MISMATCH case=%d op=%d kind=spec what=disconnect_spurious line=[%s] spec=active-request-%d@%d-and-its-pending-response-both-alive-stay-connected impl=%s\n" !case_no !op_no line h j impl_obs)
+                  else if List.mem (h, j) !conn_seen && (conn_seen := List.filter (fun x -> x <> (h, j)) !conn_seen; true) && List.mem h pend && not (if spur_class o (not !dead) = "disconnect_spurious" then !spur_dead else !spurk_dead) then begin
+                    let w = spur_class o (not !dead) in
+                    if w = "disconnect_spurious" then spur_dead := true else spurk_dead := true; incr mm_spec;
+                    report ("spec" ^ w) (Printf.sprintf "MISMATCH case=%d op=%d kind=spec what=%s line=[%s] spec=active-request-%d@%d-and-its-pending-response-both-alive-stay-connected impl=%s\n" !case_no !op_no w line h j impl_obs)
                   end;
                   if not !spec_dead && not !disc_dead && not (o_act_connected (List.mem h pend) conn) then
                     bad (if (not !dead) && !cands <> [] && List.for_all (fun st -> act_foreign st (n_of_int h)) !cands then "disconnect_newclient" else "disconnect") (Printf.sprintf "active-request-%d-not-connected-after-its-pending-response-was-dropped" h)) act;
-            pend_before := pend
+            pend_before := pend; acts_before := act
           end
         end else begin
           let (pend, act) = parse_digest impl in pend_before := pend;
           List.iter (fun (h, j, conn) ->
               if conn then (if not (List.mem (h, j) !conn_seen) then conn_seen := (h, j) :: !conn_seen)
-              else if List.mem (h, j) !conn_seen && List.mem h pend && not !spur_dead then begin
-                spur_dead := true; incr mm_spec;
-                report "specspur" (Printf.sprintf "MISMATCH case=%d op=%d kind=spec what=disconnect_spurious line=[%s] spec=active-request-%d@%d-and-its-pending-response-both-alive-stay-connected impl=%s\n" !case_no !op_no line h j impl_obs)
-              end) act
+              else if List.mem (h, j) !conn_seen && (conn_seen := List.filter (fun x -> x <> (h, j)) !conn_seen; true) && List.mem h pend && not (if spur_class o (not !dead) = "disconnect_spurious" then !spur_dead else !spurk_dead) then begin
+                let w = spur_class o (not !dead) in
+                if w = "disconnect_spurious" then spur_dead := true else spurk_dead := true; incr mm_spec;
+                report ("spec" ^ w) (Printf.sprintf "MISMATCH case=%d op=%d kind=spec what=%s line=[%s] spec=active-request-%d@%d-and-its-pending-response-both-alive-stay-connected impl=%s\n" !case_no !op_no w line h j impl_obs)
+              end) act;
+          acts_before := act
         end
       | [] -> ()
       | "PROBE" :: _ -> ()
